@@ -105,6 +105,8 @@ pub struct SBlock {
     /// the whole extent reserved for it (== ptr,size except for T inside a Result slot)
     pub slot: usize,
     pub slot_size: usize,
+    /// allocated and kept by a fallible initialiser that then failed or succeeded (C11: must stay valid)
+    pub kept: bool,
 }
 
 /// What one step looked like from outside; compared between twins / solo vs interleaved.
@@ -333,7 +335,11 @@ impl<const M: usize> Sim<M> {
             }
             if p < b.ptr + b.size && b.ptr < p + size {
                 let m = format!("{what}: new block [{p:#x}, +{size}) overlaps live block #{} [{:#x}, +{})", b.id, b.ptr, b.size);
-                self.v("C01", m);
+                let kept = b.kept;
+                self.v("C01", m.clone());
+                if kept {
+                    self.v("C11", format!("a block the initialiser allocated and kept was handed out again: {m}"));
+                }
                 return false;
             }
         }
@@ -341,7 +347,7 @@ impl<const M: usize> Sim<M> {
     }
 
     pub fn add_block(&mut self, id: u32, ptr: usize, size: usize, align: usize, freeable: bool) {
-        self.blocks.push(SBlock { id, ptr, size, align, freeable, slot: ptr, slot_size: size });
+        self.blocks.push(SBlock { id, ptr, size, align, freeable, slot: ptr, slot_size: size, kept: false });
         if self.blocks.iter().filter(|b| b.size > 0).count() >= 2 {
             self.st(St::Live2);
         }
@@ -515,15 +521,18 @@ impl<const M: usize> Sim<M> {
         self.last_abm = abm;
         self.last_cap = cap;
         // contents
-        let mut bad: Option<(u32, usize, usize)> = None;
+        let mut bad: Option<(u32, usize, usize, bool)> = None;
         for b in self.blocks.iter() {
             if let Some(j) = unsafe { check_pat(b.id, b.ptr as *const u8, b.size, false) } {
-                bad = Some((b.id, j, b.size));
+                bad = Some((b.id, j, b.size, b.kept));
                 break;
             }
         }
-        if let Some((id, j, size)) = bad {
+        if let Some((id, j, size, kept)) = bad {
             self.v("C02", format!("live block #{id} (size {size}) changed at byte {j} during {:?}", kind));
+            if kept {
+                self.v("C11", format!("block #{id} kept by an initialiser changed at byte {j} during {:?}", kind));
+            }
             // do not report the same corruption again on every later step
             self.blocks.retain(|b| b.id != id);
         }
